@@ -103,3 +103,22 @@ def sp_g(a: int, b: int = 0, *, c: int = 1) -> int:
 
 def sp_h(x: str, y: str = "d") -> str:
     return x + y
+
+
+# ---- enum values for serializer round trips (C15)
+import enum as _enum
+
+
+class Priority(_enum.IntEnum):
+    LOW = 1
+    HIGH = 10
+
+
+class Level(_enum.StrEnum):
+    INFO = "info"
+    ERROR = "error"
+
+
+class Color(_enum.Enum):
+    RED = "r"
+    BLUE = "b"
